@@ -7,6 +7,7 @@ import (
 
 	"github.com/hydraide/hydraide/app/core/hydra/swamp"
 	"github.com/hydraide/hydraide/app/core/hydra/swamp/treasure"
+	"github.com/hydraide/hydraide/app/verifhook"
 	hydrapb "github.com/hydraide/hydraide/sdk/go/hydraidego/v3/hydraidepbgo"
 	"google.golang.org/grpc/codes"
 	"google.golang.org/grpc/status"
@@ -129,6 +130,9 @@ func shiftMatchingOneSwamp(ctx context.Context, g Gateway, in *hydrapb.ShiftMatc
 		return nil, false, status.Error(codes.InvalidArgument, predErr.Error())
 	}
 
+	if verifhook.Enabled {
+		verifhook.Yield("claims.predicate.built", "shiftmatching", swampInterface)
+	}
 	treasures, capReached, err := swampInterface.CloneAndDeleteMatchingTreasures(beaconType, order, howMany, predicate, capPred, capMax)
 	if err != nil {
 		return nil, false, status.Error(codes.Internal, fmt.Sprintf("hydra error: %s", err.Error()))
@@ -177,6 +181,9 @@ func buildShiftMatchingPredicate(sw swamp.Swamp, beaconType swamp.BeaconType, fi
 	if plan.Mode != PlanModeBypass {
 		candidates := collectBucketCandidates(sw, plan.Hints)
 		keySet = candidateKeySet(candidates)
+		if verifhook.Enabled {
+			verifhook.Trace("claims.pred", "op", "shiftmatching", "mode", int(plan.Mode), "cand", candidates)
+		}
 		filterEval = plan.Residual
 	}
 
